@@ -434,6 +434,9 @@ def check_case(case, out, Line):
                 got = " ".join(got.split(" ")[2:]); ret = val
             elif tag == "BOXED":
                 got = got.split(" ")[1] if " " in got else got; ret = val
+        if isinstance(ret, str) and ret.startswith("P:"):
+            from .engine import canon_panic
+            ret = canon_panic(ret)
         if got != ret:
             problems.append(f"`{op}` on contents {before} (cap {sp.cap}): returned {got}, the sequence semantics give {ret}")
         if got_contents != sp.xs:
